@@ -566,7 +566,7 @@ REAL_ERRORS = (AssertionError, AttributeError, TypeError, ValueError, IndexError
 
 # ------------------------------------------------------------------ generic job driver
 def run_tree_job(job, body, site_default='diff', path_wall_s=20, tick_cap=40000, budget=1500, max_fail=3,
-                 hang_tags=True, quiet=False):
+                 hang_tags=True, quiet=False, witness_extra=None):
     """Explores one (family, options, shape) job.  ``body(A, B, objA, objB, job) -> [failure dict]`` is the property
     oracle over one run of the real engine; it is executed symbolically here and concretely in replay()."""
     install(quiet=quiet)
@@ -590,6 +590,8 @@ def run_tree_job(job, body, site_default='diff', path_wall_s=20, tick_cap=40000,
         objA, objB = eng.notes['objs']
         wit = dict(A=concretize(eng, objA), B=concretize(eng, objB), dict=job.get('dict', 'auto'),
                    list=job.get('list', 'on'), quiet=job.get('quiet', quiet), extra=job.get('extra'))
+        if witness_extra is not None:
+            wit['extra'] = witness_extra(eng)
         if len(samples) < 2:
             samples.append(dict(A=wit['A'], B=wit['B'], dict=wit['dict'], list=wit['list']))
         fails = list(res or [])
@@ -644,6 +646,8 @@ def replay(wit, body, job=None, wall=15):
                     A = to_tree(objA, opts)
                     Bn = to_tree(objB, opts)
                     job.setdefault('extra', wit.get('extra'))
+                    job['dict'] = wit.get('dict', 'auto')
+                    job['list'] = wit.get('list', 'on')
                     return body(A, Bn, objA, objB, job) or []
             except common.Timeout:
                 return [dict(tag='hang', site='replay', detail=f'no result within {wall}s on the real code')]
